@@ -4,11 +4,16 @@
 //!        box       = 4 x f32 bit patterns `xxxxxxxx,xxxxxxxx,xxxxxxxx,xxxxxxxx` | `!<ErrKind>`
 //!        resources = `R<objnr>` (indirect) | `D<first sorted /Properties key>` (direct) | `!<ErrKind>`
 //!   page_iter  <c|u> <file>       ->  one field per item of File::pages(): `P<objnr>` | `!<ErrKind>`
+//!   page_cs    <c|u> <nq> <file>  ->  num_pages, then for i in 0..nq  `P<objnr> <resources> <colour spaces>` | `P<objnr> !<ErrKind>` | `!<ErrKind>`
+//!        colour spaces = `-` | `name=desc;name=desc…` sorted by name (Resources.color_spaces of Page::resources()); desc as in
+//!        tools/oracle/pagetree.py: DeviceGray | DeviceRGB | DeviceCMYK | Pattern | CalGray{keys} | CalRGB{keys} | Lab{keys} | ICCBased(N,alt|-)
+//!        | Indexed(base,hival,hex) | Separation(name,alt,fn) | DeviceN(n+n…,alt,fn,-|{keys}) ; fn = F<type>:<inputs>><outputs>
 use crate::util::*;
 use crate::R;
 use pdf::error::PdfError;
 use pdf::file::{File, FileOptions};
-use pdf::object::{MaybeRef, PageRc, Rectangle, Resources};
+use pdf::object::{ColorSpace, Function, MaybeRef, PageRc, Rectangle, Resources};
+use pdf::primitive::{Dictionary, Primitive};
 
 fn rect(r: Result<Rectangle, PdfError>) -> String {
     match r {
@@ -27,6 +32,59 @@ fn res(r: Result<&MaybeRef<Resources>, PdfError>) -> String {
             }
         },
         Err(e) => format!("!{}", ekind(&e)),
+    }
+}
+fn keys(d: &Dictionary) -> String {
+    let mut ks: Vec<String> = d.iter().map(|(k, _)| k.as_str().to_string()).collect();
+    ks.sort();
+    format!("{{{}}}", ks.join("+"))
+}
+fn fn_desc(f: &Function) -> String {
+    let t = match f { Function::Sampled(_) => "0", Function::Interpolated(_) => "2", Function::Stiching => "3", Function::PostScript { .. } => "4",
+                      Function::Calculator => "?" };
+    format!("F{}:{}>{}", t, f.input_dim(), f.output_dim())
+}
+fn cs_desc(cs: &ColorSpace) -> String {
+    match cs {
+        ColorSpace::DeviceGray => "DeviceGray".into(),
+        ColorSpace::DeviceRGB => "DeviceRGB".into(),
+        ColorSpace::DeviceCMYK => "DeviceCMYK".into(),
+        ColorSpace::Pattern => "Pattern".into(),
+        ColorSpace::Named(n) => format!("Named({})", n.as_str()),
+        ColorSpace::CalGray(d) => format!("CalGray{}", keys(d)),
+        ColorSpace::CalRGB(d) => format!("CalRGB{}", keys(d)),
+        ColorSpace::CalCMYK(d) => format!("CalCMYK{}", keys(d)),
+        ColorSpace::Icc(s) => format!("ICCBased({},{})", s.info.info.components,
+                                      s.info.info.alternate.as_ref().map(|a| cs_desc(a)).unwrap_or_else(|| "-".into())),
+        ColorSpace::Indexed(base, hival, table) => {
+            let mut h = String::new();
+            hexs(table, &mut h);
+            format!("Indexed({},{},{})", cs_desc(base), hival, h)
+        }
+        ColorSpace::Separation(n, alt, f) => format!("Separation({},{},{})", n.as_str(), cs_desc(alt), fn_desc(f)),
+        ColorSpace::DeviceN { names, alt, tint, attr } => format!("DeviceN({},{},{},{})",
+            names.iter().map(|n| n.as_str().to_string()).collect::<Vec<_>>().join("+"), cs_desc(alt), fn_desc(tint),
+            attr.as_ref().map(keys).unwrap_or_else(|| "-".into())),
+        // families the reader keeps as the array it found (Lab): family name and the keys of its dictionary
+        ColorSpace::Other(arr) => format!("{}{}", arr.first().and_then(|p| p.as_name().ok()).unwrap_or("?"),
+                                          match arr.get(1) { Some(Primitive::Dictionary(d)) => keys(d), _ => "".into() }),
+    }
+}
+fn describe_cs(p: Result<PageRc, PdfError>) -> Vec<u8> {
+    match p {
+        Ok(page) => {
+            let id = page.get_ref().get_inner().id;
+            match page.resources() {
+                Ok(m) => {
+                    let mut kv: Vec<(String, String)> = m.color_spaces.iter().map(|(k, v)| (k.as_str().to_string(), cs_desc(v))).collect();
+                    kv.sort();
+                    let l: Vec<String> = kv.into_iter().map(|(k, v)| format!("{}={}", k, v)).collect();
+                    format!("P{} {} {}", id, res(Ok(m)), if l.is_empty() { "-".to_string() } else { l.join(";") }).into_bytes()
+                }
+                Err(e) => format!("P{} !{}", id, ekind(&e)).into_bytes(),
+            }
+        }
+        Err(e) => format!("!{}", ekind(&e)).into_bytes(),
     }
 }
 fn describe(p: Result<PageRc, PdfError>) -> Vec<u8> {
@@ -57,6 +115,18 @@ where B: pdf::backend::Backend,
     }
     out
 }
+fn query_cs<B, OC, SC, L>(file: &File<B, OC, SC, L>, nq: u32) -> Vec<Vec<u8>>
+where B: pdf::backend::Backend,
+      OC: pdf::file::Cache<Result<pdf::any::AnySync, std::sync::Arc<PdfError>>>,
+      SC: pdf::file::Cache<Result<std::sync::Arc<[u8]>, std::sync::Arc<PdfError>>>,
+      L: pdf::file::Log,
+{
+    let mut out = vec![format!("{}", file.num_pages()).into_bytes()];
+    for i in 0..nq {
+        out.push(describe_cs(file.get_page(i)));
+    }
+    out
+}
 fn iter<B, OC, SC, L>(file: &File<B, OC, SC, L>) -> Vec<Vec<u8>>
 where B: pdf::backend::Backend,
       OC: pdf::file::Cache<Result<pdf::any::AnySync, std::sync::Arc<PdfError>>>,
@@ -75,6 +145,14 @@ pub fn dispatch(mode: &str, f: &[Vec<u8>]) -> Option<R> {
                 match FileOptions::cached().load(fld(f, 2).to_vec()) { Ok(file) => Ok(query(&file, nq, fld(f, 3))), Err(e) => Err(ekind(&e)) }
             } else {
                 match FileOptions::uncached().load(fld(f, 2).to_vec()) { Ok(file) => Ok(query(&file, nq, fld(f, 3))), Err(e) => Err(ekind(&e)) }
+            }
+        }
+        "page_cs" => {
+            let nq = dec(fld(f, 1)) as u32;
+            if fld(f, 0).first() == Some(&b'c') {
+                match FileOptions::cached().load(fld(f, 2).to_vec()) { Ok(file) => Ok(query_cs(&file, nq)), Err(e) => Err(ekind(&e)) }
+            } else {
+                match FileOptions::uncached().load(fld(f, 2).to_vec()) { Ok(file) => Ok(query_cs(&file, nq)), Err(e) => Err(ekind(&e)) }
             }
         }
         "page_iter" => {
